@@ -198,7 +198,10 @@ def world_op(j):
     reuse = bool(j.get("reuse"))
     if do == "new":
         for r in _roots().values():
+            if os.path.islink(r):
+                os.unlink(r)
             shutil.rmtree(r, ignore_errors=True)
+            shutil.rmtree(str(r) + "_volume", ignore_errors=True)
         return True
     if do == "dump":
         nodes, sides = [], []
@@ -206,7 +209,7 @@ def world_op(j):
         for r in sorted(set(_roots().values())):
             if not os.path.exists(r):
                 continue
-            for base, dirs, files in os.walk(r):
+            for base, dirs, files in os.walk(r, followlinks=True):
                 nodes.append([to_canon(base.replace(os.sep, "/")), "dir"])
                 for f in files:
                     full = os.path.join(base, f).replace(os.sep, "/")
@@ -248,6 +251,28 @@ def world_op(j):
             p.touch()
         elif j["kind"] == "dir":
             p.mkdir(parents=True, exist_ok=True)
+        elif j["kind"] == "dangling":       # a link whose target does not exist
+            p.parent.mkdir(parents=True, exist_ok=True)
+            os.symlink(os.path.join(os.path.dirname(str(p)), ".no_such_target_" + p.name), str(p))
+        elif j["kind"] == "linkfile":       # a link to an existing file elsewhere
+            p.parent.mkdir(parents=True, exist_ok=True)
+            vol = Path(str(list(_roots().values())[0]) + "_volume")
+            vol.mkdir(parents=True, exist_ok=True)
+            tgt = vol / ("f%d_" % len(list(vol.iterdir())) + p.name)
+            tgt.touch()
+            os.symlink(str(tgt), str(p))
+        elif j["kind"] == "linkdir":        # a link to an existing directory of the tree
+            if p.exists() or p.is_symlink():
+                raise OSError("exists")
+            p.parent.mkdir(parents=True, exist_ok=True)
+            os.symlink(to_real(j["target"]), str(p), target_is_directory=True)
+        elif j["kind"] == "relocate":       # the directory lives on another volume, a link stands in its place
+            if p.is_dir() and not p.is_symlink():
+                vol = Path(str(list(_roots().values())[0]) + "_volume")
+                vol.mkdir(parents=True, exist_ok=True)
+                tgt = vol / ("d%d_" % len(list(vol.iterdir())) + p.name)
+                shutil.move(str(p), str(tgt))
+                os.symlink(str(tgt), str(p), target_is_directory=True)
         else:
             p.parent.mkdir(parents=True, exist_ok=True)
             how = j.get("how", "garbage")
